@@ -1,24 +1,37 @@
 package snps
 
 import (
+	"math"
 	"strconv"
 
 	"github.com/virus-evolution/gofasta/pkg/encoding"
 	"github.com/virus-evolution/gofasta/pkg/fastaio"
 )
 
+// vThreshold: the threshold menu for n sequences: 0, 0.5, and for every occurring frequency j/n the value itself,
+// its two floating-point neighbours, and the value as printed to 9 decimals (which differs from j/n whenever
+// j/n is not exact in 9 decimals).
+func vThresholdCount(n int) int { return 2 + 4*n }
+
 func vThreshold(k, n int) float64 {
 	switch k {
 	case 0:
 		return 0
 	case 1:
-		return 1.0 / float64(n)
-	case 2:
 		return 0.5
-	case 3:
-		return float64(n-1) / float64(n)
 	}
-	return 1
+	k -= 2
+	f := float64(k/4+1) / float64(n)
+	switch k % 4 {
+	case 1:
+		return math.Nextafter(f, 2)
+	case 2:
+		return math.Nextafter(f, -1)
+	case 3:
+		p, _ := strconv.ParseFloat(strconv.FormatFloat(f, 'f', 9, 64), 64)
+		return p
+	}
+	return f
 }
 
 // VH_C13_snps_aggregate: --aggregate lists each distinct SNP once with frequency count/n (9 decimals), keeps
@@ -48,7 +61,7 @@ func VH_C13_snps_aggregate() {
 	for n := 0; n < N; n++ {
 		lines = append(lines, <-cS)
 	}
-	thr := vThreshold(vChoice("thr", 5), N)
+	thr := vThreshold(vChoice("thr", vThresholdCount(N)), N)
 	cA := make(chan snpLine, N)
 	for _, l := range lines {
 		cA <- l
